@@ -285,6 +285,13 @@ fn main() {
                 "REQ",
                 &format!("(REQ {} {} {} {} {} {})", g_str(id), g_str(name), g_hex(ss), g_hex(pk), g_str(&hash), g_hex(&target)),
             );
+            // every further request the adapter made for this one authentication (a retry) is judged like the first
+            for l in lines.iter().skip(1) {
+                emit_case(
+                    "REQ",
+                    &format!("(REQ {} {} {} {} {} {})", g_str(id), g_str(name), g_hex(ss), g_hex(pk), g_str(&hash), g_hex(&target_of(l))),
+                );
+            }
         }
     });
     emit_note("cases", &format!("{}", inputs.len()));
